@@ -2258,6 +2258,13 @@ class OpNotImplementedError(NotImplementedError):
     """
 
 
+# Optional call tracing for external conformance checking; off unless the
+# environment variable ODL_VERIF_TRACE is set (see odl/util/verif_trace.py).
+from odl.util import verif_trace as _verif_trace  # noqa: E402
+if _verif_trace.ENABLED:
+    Operator.__call__ = _verif_trace.wrap_call(Operator.__call__)
+
+
 if __name__ == '__main__':
     from odl.util.testutils import run_doctests
     run_doctests()
